@@ -351,16 +351,34 @@ func (a Float) M__complex__() (Object, error) {
 }
 
 func (a Float) M__round__(digitsObj Object) (Object, error) {
-	digits := 0
-	if digitsObj != None {
-		var err error
-		digits, err = MakeGoInt(digitsObj)
-		if err != nil {
-			return nil, err
-		}
+	if digitsObj == None {
+		// round to the nearest integer, ties to even, returning an int
+		return Float(math.RoundToEven(float64(a))).M__int__()
 	}
-	scale := Float(math.Pow(10, float64(digits)))
-	return scale * Float(math.Floor(float64(a)/float64(scale))), nil
+	digits, err := MakeGoInt(digitsObj)
+	if err != nil {
+		return nil, err
+	}
+	f := float64(a)
+	if math.IsNaN(f) || math.IsInf(f, 0) || f == 0 {
+		return a, nil
+	}
+	if digits >= 0 {
+		if digits > 400 {
+			return a, nil
+		}
+		// correctly rounded decimal conversion and back
+		r, err := strconv.ParseFloat(strconv.FormatFloat(f, 'f', digits, 64), 64)
+		if err != nil {
+			return nil, ExceptionNewf(OverflowError, "rounded value too large to represent")
+		}
+		return Float(r), nil
+	}
+	if digits < -400 {
+		return Float(math.Copysign(0, f)), nil
+	}
+	scale := math.Pow(10, float64(-digits))
+	return Float(math.RoundToEven(f/scale) * scale), nil
 }
 
 // Rich comparison
